@@ -396,6 +396,7 @@ class Ob:
     text: str          # the obligation
     facts: str = ""    # what supports / refutes it
     note: bool = False  # cross-reference note: reported, never a violation
+    positive: bool = False  # the failure rests on something *found* (a forbidden call, a wrong operand), not on something missing
 
     @property
     def key(self) -> str:
@@ -424,8 +425,8 @@ class Collector:
         self.info: Dict[str, object] = {}
         self.errors: List[str] = []
 
-    def add(self, rule, construct, ok, where, text, facts="", note=False) -> Ob:
-        ob = Ob(rule, construct, bool(ok), where, text, facts, note)
+    def add(self, rule, construct, ok, where, text, facts="", note=False, positive=False) -> Ob:
+        ob = Ob(rule, construct, bool(ok), where, text, facts, note, positive)
         self.obs.append(ob)
         return ob
 
@@ -583,6 +584,26 @@ def unresolved_dispatch(repo: "Repo", where: str, depth: int = 3) -> Optional[st
                 if nm and _is_private(nm) and not (nm.startswith("__") and nm.endswith("__")):
                     for g in fns_by_name.get(nm, []):
                         todo.append((g, d + 1))
+    # a private helper called here that the normal form could not dissolve (it reports why): what the function does is then only
+    # partly visible, and "the statements are not there" is not evidence
+    try:
+        from .rules.common import sctx
+        owner = next((c.name for c in ast.walk(mod.tree) if isinstance(c, ast.ClassDef) and fn in c.body), None)
+        sx = sctx(repo, owner, fn.name, None if owner else mod.name)
+        called = {n.func.attr if isinstance(n.func, ast.Attribute) else getattr(n.func, "id", None) for n in ast.walk(sx.fn) if isinstance(n, ast.Call)}
+        for why in getattr(sx.cx, "opaque", []) or []:
+            hname = why.split(":", 1)[0].split(".")[-1]
+            reason = why.split(":", 1)[1].strip() if ":" in why else ""
+            # only constructs *inside* the helper that the normal form has no reading of (the call-protocol refusals -- star arguments,
+            # a return in a branch that does not always exit -- leave the helper's statements analysable where the rules look at it)
+            unreadable = reason.startswith(("nested definitions", "return inside", "return in a try body", "too large", "pattern ",
+                                            "alternative patterns", "positional class patterns", "star patterns", "positional-only"))
+            if not unreadable:
+                continue
+            if hname in called and _is_private(hname) and not (hname.startswith("__") and hname.endswith("__")):
+                return f"{fn.name}: the private helper {why.split(':', 1)[0]} could not be dissolved ({why.split(':', 1)[1].strip()[:60]})"
+    except Exception:
+        return None
     return None
 
 
@@ -603,7 +624,7 @@ def run_property(prop: str, tier: str, check: Callable, floors: Dict[str, int], 
         # a violation located in a function that dispatches through a table the normal form does not resolve is not decided:
         # the statements the rule looks for may sit behind the table
         for o in list(col.obs):
-            if not o.ok and not o.note and o.key not in known_keys:
+            if not o.ok and not o.note and not o.positive and o.key not in known_keys:
                 why = unresolved_dispatch(repo, o.where)
                 if why:
                     col.errors.append(f"{o.rule} @ {o.construct}: not decided -- {why}")
